@@ -33,7 +33,35 @@ class MemView(object):
         return [(a, self.get(a)) for a in self]
 
 
-def run_real(simcls, block, steps, regmap=None, memmap=None, default=0, track='all', **kw):
+class VerifRtlAssertion(Exception):
+    """the exception the harness registers with rtl_assert: a testbench may catch it and keep stepping"""
+
+
+def add_rtl_assert(rng, block):
+    """rtl_assert on one bit of a random driven wire of `block`; returns the assertion Output (or None)"""
+    cands = sorted((w for w in block.wirevector_set if not isinstance(w, (pyrtl.Output, pyrtl.Const)) and w.bitwidth
+                    and not w.name.startswith('assertion')), key=lambda w: w.name)
+    if not cands:
+        return None
+    with pyrtl.set_working_block(block, no_sanity_check=True):
+        w = rng.choice(cands)
+        bit = w[rng.randrange(len(w))]
+        return pyrtl.rtl_assert(bit, VerifRtlAssertion('verif'), block=block)
+
+
+def run_real(simcls, block, steps, regmap=None, memmap=None, default=0, track='all', foreign=False, **kw):
+    """see _run_real; with `foreign`, an unrelated block is the working block while the simulator (given `block=`
+    explicitly) is constructed, stepped and inspected"""
+    if not foreign:
+        return _run_real(simcls, block, steps, regmap, memmap, default, track, **kw)
+    other = pyrtl.Block()
+    with pyrtl.set_working_block(other, no_sanity_check=True):
+        r = pyrtl.Register(3, 'verif_foreign_reg')
+        r.next <<= r + 1
+        return _run_real(simcls, block, steps, regmap, memmap, default, track, **kw)
+
+
+def _run_real(simcls, block, steps, regmap=None, memmap=None, default=0, track='all', **kw):
     """Returns {'trace': {wire name: [values]}, 'mem': {memid: {addr: val}}, 'err': None|(cycle, class)}.
     `track='all'` traces every wire the simulator can trace."""
     regmap = dict(regmap or {})
@@ -41,18 +69,21 @@ def run_real(simcls, block, steps, regmap=None, memmap=None, default=0, track='a
     try:
         if simcls is pyrtl.CompiledSimulation:
             tracer = pyrtl.SimulationTrace(wires_to_track=None if track != 'all' else 'all', block=block)
-            sim = simcls(tracer=tracer, register_value_map=regmap, memory_value_map=memmap,
-                         default_value=default, block=block, **kw)
+            sim = simcls(tracer=tracer, memory_value_map=memmap,
+                         default_value=default, block=block, **dict(kw, **({'register_value_map': regmap} if regmap else {})))
         else:
             tracer = pyrtl.SimulationTrace(wires_to_track='all' if track == 'all' else None, block=block)
-            sim = simcls(tracer=tracer, register_value_map=regmap, memory_value_map=memmap,
-                         default_value=default, block=block, **kw)
+            sim = simcls(tracer=tracer, memory_value_map=memmap,
+                         default_value=default, block=block, **dict(kw, **({'register_value_map': regmap} if regmap else {})))
     except Exception as e:  # noqa
         return {'trace': {}, 'mem': {}, 'err': (-1, err_class(e), str(e)[:200]), 'sim': None}
     err = None
+    asserted = []
     for k, s in enumerate(steps):
         try:
             sim.step(dict(s))
+        except VerifRtlAssertion:
+            asserted.append(k)      # the state has advanced; a testbench that catches the assertion keeps stepping
         except Exception as e:  # noqa
             err = (k, err_class(e), str(e)[:200])
             break
@@ -72,7 +103,7 @@ def run_real(simcls, block, steps, regmap=None, memmap=None, default=0, track='a
                 mem[mid] = MemView(mm, m.addrwidth)      # a view into the C hash map: query, do not enumerate
         except Exception as e:  # noqa
             mem[mid] = {'err': err_class(e)}
-    return {'trace': trace, 'mem': mem, 'err': err, 'sim': sim}
+    return {'trace': trace, 'mem': mem, 'err': err, 'sim': sim, 'asserted': asserted}
 
 
 def lean_request(ser, steps, regmap=None, memmap=None, default=0, model='spec', order=None,
